@@ -478,8 +478,10 @@ class ExprMixin:
         if it.op == "Zip":
             return self.mk("Tuple", tuple(self.iter_elem(a, site) for a in it.args), None, site)
         if it.op == "Enumerate":
-            return self.mk("Tuple", (self.mk("IterIdx", (it.args[0],), None, site),
-                                     self.iter_elem(it.args[0], site)), None, site)
+            idx = self.mk("IterIdx", (it.args[0],), None, site)
+            if it.attr:
+                idx = self.mk("BinOp", (idx, self.const(it.attr, site)), "Add", site)
+            return self.mk("Tuple", (idx, self.iter_elem(it.args[0], site)), None, site)
         if it.op == "DictItems":
             return self.mk("Tuple", (self.mk("IterKey", (it.args[0],), None, site),
                                      self.mk("IterElem", (it.args[0],), None, site)), None, site)
@@ -498,8 +500,20 @@ class ExprMixin:
         if it.op == "Enumerate":
             c = self.known_items(it.args[0], limit)
             if c is not None:
-                return [self.mk("Tuple", (self.const(i), x), None, it.site) for i, x in enumerate(c)]
+                return [self.mk("Tuple", (self.const(i), x), None, it.site) for i, x in enumerate(c, it.attr or 0)]
             return None
+        # literal numpy arrays (module constants) and constant slices of them: the elements are arr[k]
+        n_arr = self.static_len(it)
+        if n_arr is not None and it.op != "Const":
+            return [self.mk("Subscript", (it, self.const(k)), None, it.site) for k in range(n_arr)] \
+                if n_arr <= limit else None
+        if it.op == "Subscript" and it.args[1].op == "Slice" and all(
+                a.op == "Const" and (a.attr is None or type(a.attr) is int) for a in it.args[1].args):
+            n_arr = self.static_len(it.args[0])
+            if n_arr is not None:
+                ks = range(n_arr)[slice(*[a.attr for a in it.args[1].args])]
+                return [self.mk("Subscript", (it.args[0], self.const(k)), None, it.site) for k in ks] \
+                    if len(ks) <= limit else None
         if it.op == "Range" and all(a.op == "Const" and isinstance(a.attr, int) for a in it.args):
             r = range(*[a.attr for a in it.args])
             if len(r) <= limit:
